@@ -266,6 +266,9 @@ func numSig(fe, path, lit, kind string) []string {
 		i, f, z, e = nc.int0, nc.frac, nc.fzeros, nc.exp
 	case kind == "wrong-kind":
 		i = nc.int
+		if strings.HasPrefix(strings.TrimPrefix(lit, "-"), "922337203685477580") && nc.int == "19" {
+			i = "19:last-decade" // 9223372036854775800…807, where the accumulator reaches BigLimit before the last digit
+		}
 	case kind == "lost-digits:exp-sign":
 		// a cross-cutting loss: the front-end and entry point identify it
 	case kind == "lost-digits":
